@@ -297,6 +297,11 @@ func Eq(a, b *Term) *Term {
 	if a.id > b.id {
 		a, b = b, a
 	}
+	if a.W > 8 && (a.Op == OpConcat || b.Op == OpConcat) {
+		if r := eqBySegments(a, b); r != nil {
+			return r
+		}
+	}
 	// eq(zext(x), const) simplification
 	if b.Op == OpConst && a.Op == OpZExt {
 		x := a.A[0]
@@ -449,6 +454,14 @@ func Bin(op Op, a, b *Term) *Term {
 		}
 		if b.Op == OpConst {
 			return Bin(OpAdd, a, BV(w, -b.V))
+		}
+		if a.Op == OpAdd {
+			if a.A[0] == b {
+				return a.A[1]
+			}
+			if a.A[1] == b {
+				return a.A[0]
+			}
 		}
 	case OpMul:
 		if a.Op == OpConst {
